@@ -9,6 +9,7 @@ import importlib
 import json
 import os
 import random
+import re
 import subprocess
 import sys
 import time
@@ -106,6 +107,11 @@ class Ctx:
 
     def violation(self, key, msg, witness=None):
         """key = mechanism key (call site + failing condition), never a case hash."""
+        m = re.match(r"^(C\d{2,3})/", key)
+        if m and m.group(1) != self.prop:
+            # a shared monitor reported for another property: that property's own check decides it
+            self.counters["foreign." + m.group(1)] = self.counters.get("foreign." + m.group(1), 0) + 1
+            return
         v = self.violations.get(key)
         if v is None:
             w = {"case": list(self.cur) if self.cur else None, "detail": witness}
